@@ -203,6 +203,6 @@ fn case(ctx: &mut Ctx, rng: &mut Rng, i: u64) {
 pub fn run(ctx: &mut Ctx) {
     let total = (HANDLES.len() * BEHAVIOURS.len() * 3 * 2) as u64;
     ctx.max("tuples_enumerated", total as i64);
-    let reps = ctx.n(3, 8);
+    let reps = ctx.n(3, 40);
     ctx.family("tuples", total * reps, |ctx, rng, i| case(ctx, rng, i % total));
 }
